@@ -107,7 +107,8 @@ enum Known { K_NONE, K_C07C, K_C07D, K_C07E };
 
 // SMALL: quick-tier slice - only x19-x21, x29, x30 and d8-d10 may be dirty (3 + 2 register pairs at most); the thorough tier
 // runs the same harness with all 2^32 x 2^32 dirty masks.
-// (SMALL == 2, companions of known findings: x19, x29, x30 only, no vector register.)
+// (SMALL == 2, companions of known findings: x19, x29, x30 only, no vector register; SMALL == 3, light-call, where every
+// register from x4 / v4 up is callee-saved: only x19-x21, x29, x30, d8-d10 may be dirty.)
 template<Known KNOWN, CallConvId CCID, bool DARWIN, int SMALL>
 static void run() {
   using namespace mach;
@@ -123,8 +124,8 @@ static void run() {
   V_ASSERT(f.arch() == ARCH, "frame arch copied from the convention");
   f._arch = ARCH;   // constant index into the arch-traits table (no-op natively)
 
-  f.add_dirty_regs(RegGroup::kGp, nondet_u32() & (SMALL == 2 ? 0x60080000u | 0x3FFFFu : SMALL ? 0x60380000u | 0x3FFFFu : ~0u));   // (registers the convention does not preserve are never saved)
-  f.add_dirty_regs(RegGroup::kVec, nondet_u32() & (SMALL == 2 ? 0xFFFF00FFu : SMALL ? 0xFFFF07FFu : ~0u));
+  f.add_dirty_regs(RegGroup::kGp, nondet_u32() & (SMALL == 3 ? 0x60380000u : SMALL == 2 ? 0x60080000u | 0x3FFFFu : SMALL ? 0x60380000u | 0x3FFFFu : ~0u));   // (registers the convention does not preserve are never saved)
+  f.add_dirty_regs(RegGroup::kVec, nondet_u32() & (SMALL == 3 ? 0x00000700u : SMALL == 2 ? 0xFFFF00FFu : SMALL ? 0xFFFF07FFu : ~0u));
   uint32_t lsz = nondet_u32() & 0xFFF8, csz = nondet_u32() & 0xFFF8;   // 0..65528, whole 8-byte words
   f.set_local_stack_size(lsz); f.set_call_stack_size(csz);
   uint32_t la = 1u << (nondet_u8() % 7), ca = 1u << (nondet_u8() % 7);
@@ -210,5 +211,5 @@ HARNESS h_prolog_a64_kf_C07C() { run<K_C07C, CallConvId::kCDecl, false, 2>(); }
 HARNESS h_prolog_a64_kf_C07D() { run<K_C07D, CallConvId::kCDecl, false, 2>(); }
 HARNESS h_prolog_a64_aapcs() { run<K_NONE, CallConvId::kCDecl, false, 0>(); }
 HARNESS h_prolog_a64_apple() { run<K_NONE, CallConvId::kCDecl, true, 0>(); }
-HARNESS h_prolog_a64_light_small() { run<K_NONE, CallConvId::kLightCall2, false, 1>(); }
-HARNESS h_prolog_a64_kf_C07E() { run<K_C07E, CallConvId::kLightCall2, false, 1>(); }
+HARNESS h_prolog_a64_light_small() { run<K_NONE, CallConvId::kLightCall2, false, 3>(); }
+HARNESS h_prolog_a64_kf_C07E() { run<K_C07E, CallConvId::kLightCall2, false, 3>(); }
